@@ -223,16 +223,21 @@ def convert_archive(archive):
     syms = sorted(syms, reverse=True)
     # ok, syms are correct.  now we get the rest.
     # we shift the readds into a separate list so that we don't reinspect
-    # them on later runs; this slightly reduces the working set.
-    additions = []
-    for x in syms:
-        affected = t.child_nodes(x.location)
-        if not affected:
-            continue
-        t.difference_update(affected)
-        additions.extend(affected.change_offset(x.location, x.resolved_target))
-
-    t.update(additions)
+    # them during the same pass; this slightly reduces the working set.
+    # An entry moved into the target of one symlink can land below another
+    # symlink (nested symlinked directories), so repeat until nothing moves;
+    # without symlink cycles every pass resolves at least one level.
+    for _ in range(len(syms) + 1):
+        additions = []
+        for x in syms:
+            affected = t.child_nodes(x.location)
+            if not affected:
+                continue
+            t.difference_update(affected)
+            additions.extend(affected.change_offset(x.location, x.resolved_target))
+        if not additions:
+            break
+        t.update(additions)
     t.add_missing_directories()
 
     # finally... an insane sort.
